@@ -311,7 +311,19 @@ def rule_range(ctx, attrs=COUNTER_ATTRS, modules=None, rule="range"):
                     continue
                 p_hi = w.P.prove_le0(v.lin - hi, e.facts)
                 p_lo = w.P.prove_le0(Lin.const(lo) - v.lin, e.facts)
-                if (not p_hi or not p_lo) and is_float_derived(w, v.lin):
+                # a float -> uintN cast feeding the store must itself be in range (out-of-range casts are undefined)
+                tt = v.lin.single_term()
+                direct_cast = False
+                if tt is not None and tt[0] == "trunc":
+                    for c in w.events:
+                        if c.kind == "cast" and c.fromfloat and isinstance(c.result, Num) and c.result.lin == v.lin \
+                                and isinstance(c.arg, Num):
+                            # the store receives a float->int cast directly: the cast argument must be in range, and a
+                            # guard on that argument makes the obligation decidable
+                            direct_cast = any(set(f.terms()) & set(c.arg.lin.terms()) for f in e.facts)
+                            p_hi = p_hi and w.P.prove_le0(c.arg.lin - hi, e.facts)
+                            p_lo = p_lo and w.P.prove_le0(Lin.const(lo) - c.arg.lin, e.facts)
+                if (not p_hi or not p_lo) and is_float_derived(w, v.lin) and not direct_cast:
                     numeric = True
                     continue
                 res_hi.append((bool(p_hi), str(p_hi) if p_hi else "cannot prove %s <= %d" % (show_lin(v.lin), hi), fact_strs(e)))
